@@ -30,20 +30,55 @@
 (* StaleReuse = TRUE is the NAMED DEVIATION StaleHandleReuse: a worker     *)
 (* keeps the handle it opened in an earlier call (a per-thread cache keyed *)
 (* by path only); TLC refutes it (MC_ParExtract_stale.cfg).                *)
+(*                                                                         *)
+(* Multi-archive helpers (parallel.rs: extract_from_multiple_archives,     *)
+(* extract_multiple_from_multiple_archives, search_in_multiple_archives,   *)
+(* process_archives_parallel).  The same machine with the request read as  *)
+(* a list of ARCHIVES: one task per archive (StartMulti: B = 0, no skip    *)
+(* flag), TakeTask = Archive::open of req[k], Seek + ReadOne = the         *)
+(* per-archive function (read the file(s) / list and filter / the caller's *)
+(* processor), Put into slot k.  |req| = the archive count.                *)
+(*                                                                         *)
+(* Collecting.  `collect()` into a Vec of known length writes slot i in    *)
+(* place (Collect).  Every other collect of rayon (into Result<Vec>, or a  *)
+(* hand-written fold/reduce) is a REDUCE TREE: every task yields a run of  *)
+(* slots, adjacent runs are joined pairwise in ANY bracketing (rayon       *)
+(* splits adaptively; the tree is balanced only when the task count is a   *)
+(* power of two) until one run is left (BeginReduce, Merge, CollectReduced)*)
+(* Join = concatenation is associative, so every bracketing gives request  *)
+(* order.  SwapShorter = TRUE is the NAMED DEVIATION UnorderedJoin ("append *)
+(* the shorter run to the longer one"): right for balanced trees, rotated  *)
+(* results for 3, 5, 6, 7, 9 .. tasks; TLC refutes it                      *)
+(* (MC_ParExtract_swap.cfg).                                               *)
+(*                                                                         *)
+(* Configuration.  extract_with_config takes a ParallelConfig on which the *)
+(* caller may or may not have called batch_size(): bopt = 0 stands for     *)
+(* "never set", the call then runs with DefaultBatch.  Which path the call *)
+(* takes and with which batch size is EffBatch (the thresholds SwitchAt /  *)
+(* AdaptAt are 1000 / 5000 in the code).  The property quantifies over     *)
+(* every configuration a caller can build, so DefaultBatch >= 1 is part of *)
+(* it: DefaultBatch = 0 is the NAMED DEVIATION ZeroDefaultBatch -- the     *)
+(* batched path cannot chunk the request and the call panics; TLC refutes  *)
+(* it (MC_ParExtract_nobatch.cfg).                                         *)
 (***************************************************************************)
 EXTENDS Integers, Sequences, FiniteSets, TLC
 
 CONSTANTS PresentAt,      \* generation -> names the archive at the path contains in that generation
           SharedHandle,   \* FALSE: the code's design
-          StaleReuse      \* FALSE: the code's design (TRUE = deviation StaleHandleReuse)
+          StaleReuse,     \* FALSE: the code's design (TRUE = deviation StaleHandleReuse)
+          SwapShorter,    \* FALSE: the code's design (TRUE = deviation UnorderedJoin)
+          DefaultBatch,   \* batch size of a ParallelConfig on which batch_size() was never called (code: 10; 0 = deviation ZeroDefaultBatch)
+          SwitchAt,       \* extract_with_config: more names than this -> batched path (code: 1000)
+          AdaptAt         \* ... more names than this -> the batch size is raised to |req| / (2 T) (code: 5000)
 VARIABLES vreq, vthreads, vbatch, vskip,     \* the call's arguments (vbatch = 0: unbatched)
           vtask,          \* task id -> "todo" | "run" | "done" | "failed" | "dropped"
           vwk,            \* worker -> [task, pos, ph]  ph in idle | opened | sought
           vgen,           \* generation of the archive that is at the path now (1, 2, ..)
           vhandle,        \* handle id -> [gen: generation it was opened on (0 = never), at: name it is positioned at]
           vout,           \* slot -> result | NoRes
+          vparts,         \* the reduce tree: sequence of runs of slots still to be joined (<<>> unless reducing)
           vret            \* the call's return value, NoRes while running
-pxvars == <<vreq, vthreads, vbatch, vskip, vtask, vwk, vgen, vhandle, vout, vret>>
+pxvars == <<vreq, vthreads, vbatch, vskip, vtask, vwk, vgen, vhandle, vout, vparts, vret>>
 
 NoRes == [kind |-> "none"]
 Ok(n)  == [kind |-> "ok", of |-> n]         \* the content of file n (an opaque token)
@@ -68,14 +103,31 @@ Workers == 1..vthreads
 HandleOf(w) == IF SharedHandle THEN 1 ELSE w
 Idle == [task |-> 0, pos |-> 0, ph |-> "idle"]
 
-Start(req, t, b, skip) ==
+StartWith(req, t, b, skip, ret) ==
   /\ vreq = req /\ vthreads = t /\ vbatch = b /\ vskip = skip
   /\ vtask = [k \in 1..NTasks(Len(req), b) |-> "todo"]
   /\ vwk = [w \in 1..t |-> Idle]
   /\ vgen = 1
   /\ vhandle = [w \in 1..t |-> [gen |-> 0, at |-> ""]]
   /\ vout = [i \in 1..Len(req) |-> NoRes]
-  /\ vret = NoRes
+  /\ vparts = <<>>
+  /\ vret = ret
+Start(req, t, b, skip) == StartWith(req, t, b, skip, NoRes)
+\* a multi-archive helper: req is the list of archives, one task per archive, the call fails as a whole
+StartMulti(areq, t) == Start(areq, t, 0, FALSE)
+
+\* ---- the configuration of extract_with_config -----------------------------------------------------------
+PanicRet == [kind |-> "panic", slots |-> <<>>]
+CfgBatch(bopt) == IF bopt = 0 THEN DefaultBatch ELSE bopt          \* bopt = 0: batch_size() was never called
+PxMax(a, b) == IF a >= b THEN a ELSE b
+\* 0 = the unbatched path (the batch size is not looked at); otherwise the argument of `chunks`
+EffBatch(n, bopt, t) == IF n <= SwitchAt THEN 0
+                        ELSE IF n > AdaptAt THEN PxMax(CfgBatch(bopt), n \div (2 * t))
+                        ELSE CfgBatch(bopt)
+\* `chunks(0)` panics before any task exists
+StartCfg(req, t, bopt, skip) ==
+  LET eb == EffBatch(Len(req), bopt, t)
+  IN  IF Len(req) > SwitchAt /\ eb = 0 THEN StartWith(req, t, 0, skip, PanicRet) ELSE Start(req, t, eb, skip)
 
 Failing == \E k \in Tasks : vtask[k] = "failed"
 Args == <<vreq, vthreads, vbatch, vskip>>
@@ -88,13 +140,13 @@ TakeTask(w, k) ==
   \* Archive::open: a fresh handle on what is at the path now (StaleHandleReuse: keep an earlier one)
   /\ vhandle' = [vhandle EXCEPT ![HandleOf(w)] =
                     [gen |-> IF StaleReuse /\ @.gen # 0 THEN @.gen ELSE vgen, at |-> ""]]
-  /\ UNCHANGED <<vout, vret, vgen>> /\ UNCHANGED Args
+  /\ UNCHANGED <<vout, vparts, vret, vgen>> /\ UNCHANGED Args
 \* read_file, step 1: find the entry and seek the handle
 Seek(w) ==
   /\ vwk[w].ph = "opened"
   /\ vhandle' = [vhandle EXCEPT ![HandleOf(w)].at = vreq[vwk[w].pos]]
   /\ vwk' = [vwk EXCEPT ![w].ph = "sought"]
-  /\ UNCHANGED <<vtask, vout, vret, vgen>> /\ UNCHANGED Args
+  /\ UNCHANGED <<vtask, vout, vparts, vret, vgen>> /\ UNCHANGED Args
 \* read_file, step 2: read at the handle's position; Put the result into the slot of this request
 Advance(w, k) ==
   IF vwk[w].pos < Last(k, Len(vreq), vbatch)
@@ -108,25 +160,46 @@ ReadOne(w) ==
      IN  /\ (r.kind = "ok" \/ vskip)
          /\ vout' = [vout EXCEPT ![i] = r]             \* Put(i, r)
          /\ Advance(w, k)
-  /\ UNCHANGED <<vhandle, vret, vgen>> /\ UNCHANGED Args
+  /\ UNCHANGED <<vhandle, vparts, vret, vgen>> /\ UNCHANGED Args
 \* without skip_errors an error ends the task (the `?`); the rest of its chunk is not read
 FailFast(w) ==
   /\ vwk[w].ph = "sought" /\ ~vskip
   /\ SeqReadAt(vhandle[HandleOf(w)].gen, vhandle[HandleOf(w)].at).kind = "err"
   /\ vtask' = [vtask EXCEPT ![vwk[w].task] = "failed"]
   /\ vwk' = [vwk EXCEPT ![w] = Idle]
-  /\ UNCHANGED <<vhandle, vout, vret, vgen>> /\ UNCHANGED Args
+  /\ UNCHANGED <<vhandle, vout, vparts, vret, vgen>> /\ UNCHANGED Args
 \* collecting into Result lets rayon drop work that has not started once some task failed
 SkipTask(k) ==
   /\ vret = NoRes /\ Failing /\ vtask[k] = "todo"
   /\ vtask' = [vtask EXCEPT ![k] = "dropped"]
-  /\ UNCHANGED <<vwk, vhandle, vout, vret, vgen>> /\ UNCHANGED Args
-\* the call returns when no task is to do or running
+  /\ UNCHANGED <<vwk, vhandle, vout, vparts, vret, vgen>> /\ UNCHANGED Args
+\* the call returns when no task is to do or running: indexed collect (slot i written in place)
+Finished == \A k \in Tasks : vtask[k] \in {"done", "failed", "dropped"}
 Collect ==
-  /\ vret = NoRes
-  /\ \A k \in Tasks : vtask[k] \in {"done", "failed", "dropped"}
+  /\ vret = NoRes /\ vparts = <<>>
+  /\ Finished
   /\ vret' = IF Failing THEN [kind |-> "err", slots |-> <<>>]
              ELSE [kind |-> "ok", slots |-> [i \in 1..Len(vreq) |-> [name |-> vreq[i], res |-> vout[i]]]]
+  /\ UNCHANGED <<vtask, vwk, vhandle, vout, vparts, vgen>> /\ UNCHANGED Args
+\* ... or a reduce tree: every task yields the run of its slots,
+RunOf(k) == [j \in 1..(Last(k, Len(vreq), vbatch) - First(k, vbatch) + 1) |->
+               [name |-> vreq[First(k, vbatch) + j - 1], res |-> vout[First(k, vbatch) + j - 1]]]
+BeginReduce ==
+  /\ vret = NoRes /\ vparts = <<>> /\ Tasks # {}
+  /\ Finished /\ ~Failing
+  /\ vparts' = [k \in Tasks |-> RunOf(k)]
+  /\ UNCHANGED <<vtask, vwk, vhandle, vout, vret, vgen>> /\ UNCHANGED Args
+\* ... two ADJACENT runs are joined, in any bracketing (UnorderedJoin: the shorter one is appended to the longer one)
+Join(l, r) == IF SwapShorter /\ Len(l) < Len(r) THEN r \o l ELSE l \o r
+Merge(j) ==
+  /\ vret = NoRes /\ j \in 1..(Len(vparts) - 1)
+  /\ vparts' = [m \in 1..(Len(vparts) - 1) |-> IF m < j THEN vparts[m] ELSE IF m = j THEN Join(vparts[j], vparts[j + 1]) ELSE vparts[m + 1]]
+  /\ UNCHANGED <<vtask, vwk, vhandle, vout, vret, vgen>> /\ UNCHANGED Args
+\* ... until one run is left: the return value
+CollectReduced ==
+  /\ vret = NoRes /\ Len(vparts) = 1
+  /\ vret' = [kind |-> "ok", slots |-> vparts[1]]
+  /\ vparts' = <<>>
   /\ UNCHANGED <<vtask, vwk, vhandle, vout, vgen>> /\ UNCHANGED Args
 \* after a call has returned: the archive at the path is replaced (next generation) and the same process makes the
 \* next call with the same pool (workers and their handles survive)
@@ -137,11 +210,11 @@ ReplaceAndCall(req) ==
   /\ vtask' = [k \in 1..NTasks(Len(req), vbatch) |-> "todo"]
   /\ vout' = [i \in 1..Len(req) |-> NoRes]
   /\ vret' = NoRes
-  /\ UNCHANGED <<vthreads, vbatch, vskip, vwk, vhandle>>
+  /\ UNCHANGED <<vthreads, vbatch, vskip, vwk, vhandle, vparts>>
 
 PxNext == \/ \E w \in Workers : \/ (\E k \in Tasks : TakeTask(w, k)) \/ Seek(w) \/ ReadOne(w) \/ FailFast(w)
           \/ \E k \in Tasks : SkipTask(k)
-          \/ Collect
+          \/ Collect \/ BeginReduce \/ (\E j \in 1..Len(vparts) : Merge(j)) \/ CollectReduced
 
 \* ---- the property ----------------------------------------------------------------------------------
 ScheduleIndependent == vret # NoRes => vret = Expected(vreq, vskip)
@@ -149,6 +222,10 @@ ScheduleIndependent == vret # NoRes => vret = Expected(vreq, vskip)
 SlotsRight == \A i \in 1..Len(vreq) : vout[i] = NoRes \/ vout[i] = SeqRead(vreq[i])
 \* a read at generation g uses a handle of generation g
 HandleFresh == \A w \in Workers : vwk[w].ph \in {"opened", "sought"} => vhandle[HandleOf(w)].gen = vgen
+\* runs being joined are the finished slots, each exactly once (no slot lost or doubled by the reduce tree)
+PartsCover == vparts # <<>> => Len(vreq) = 0 \/ (LET tot[m \in 0..Len(vparts)] == IF m = 0 THEN 0 ELSE tot[m - 1] + Len(vparts[m]) IN tot[Len(vparts)] = Len(vreq))
+\* every configuration a caller can build is one the call can run with
+ConfigSane == DefaultBatch >= 1
 \* the call always returns: some step is possible until it has
 Returns == vret = NoRes => ENABLED PxNext
 =============================================================================
